@@ -147,7 +147,7 @@ impl Prop for C16 {
 
     fn rule(&self) -> String {
         "filters: ALL insertion sequences of length <= 3 over 18 filter kinds x {insert, insert_nand, insert_nor} with a representative value per kind (54 + 54^2 + 54^3), \
-         and random sequences of length 0-12 with generated values (strings without backslash / NUL, tag lists incl. empty, any u32) x 9 regions x random seed addresses: \
+         every group size 1..=18 in every group, and random sequences of length 0-70 (incl. sequences that fill one group with 10-18 kinds) with generated values (strings without backslash / NUL, tag lists incl. empty, any u32) x 9 regions x random seed addresses: \
          the request sent by query_specific is parsed by a reference grammar of the Master Server Query Protocol (31 region 'ip:port' 00 filter 00; \\\\key\\\\value \
          conditions; \\\\nor\\\\N and \\\\nand\\\\N groups of N conditions) and must denote exactly the model's three groups (last insertion of a kind wins, compared as \
          sets). Paging: 1-6 pages of 0-230 distinct entries with the 0.0.0.0:0 terminator at the end of the last page (also a terminator-only page): query() must return \
@@ -166,7 +166,17 @@ impl Prop for C16 {
     fn random_cases(&self, tier: Tier) -> u64 { tier.pick(60_000, 2_000_000) }
 
     fn strategy(&self, _tier: Tier) -> BoxedStrategy<Case> {
-        let filters = (prop::collection::vec((0u8 .. 3, filter()), 0 .. 13), 0u8 .. 9, any::<[u8; 4]>(), any::<u16>())
+        let ops = prop_oneof![
+            6 => prop::collection::vec((0u8 .. 3, filter()), 0 .. 13),
+            2 => prop::collection::vec((0u8 .. 3, filter()), 13 .. 70),
+            // one group filled with many different kinds (group sizes of 10 and more need two digits)
+            2 => (0u8 .. 3, prop::collection::vec(filter(), 20 .. 60), prop::collection::vec((0u8 .. 3, filter()), 0 .. 6)).prop_map(|(g, big, rest)| {
+                let mut v: Vec<(u8, F)> = big.into_iter().map(|f| (g, f)).collect();
+                v.extend(rest);
+                v
+            }),
+        ];
+        let filters = (ops, 0u8 .. 9, any::<[u8; 4]>(), any::<u16>())
             .prop_map(|(ops, region, seed_ip, seed_port)| Case::Filters { ops, region, seed_ip, seed_port });
         let paging = (prop::collection::vec(prop_oneof![3 => 1usize..6, 2 => 6usize..60, 1 => 200usize..231, 1 => Just(230usize)], 1 .. 7), any::<u32>(), 0u8 .. 9, any::<bool>())
             .prop_map(|(sizes, salt, region, empty_last)| {
@@ -212,7 +222,11 @@ impl Prop for C16 {
             }
             Case::Filters { ops, region: (k % 9) as u8, seed_ip: [0, 0, 0, 0], seed_port: 0 }
         });
-        Box::new(it)
+        // every group size 1..=18 in every group (the count field grows to two digits)
+        let sizes = (0u8 .. 3).flat_map(|g| (1u8 ..= 18).map(move |n| (g, n))).enumerate().filter(move |(i, _)| i % nshards == shard).map(|(_, (g, n))| {
+            Case::Filters { ops: (0 .. n).map(|k| (g, representative((k * 7 + g) % 18))).collect(), region: g, seed_ip: [0, 0, 0, 0], seed_port: 0 }
+        });
+        Box::new(it.chain(sizes))
     }
 
     fn exhaustive_subspaces(&self, tier: Tier) -> Vec<String> {
@@ -225,6 +239,14 @@ impl Prop for C16 {
         match case {
             Case::Filters { ops, region, seed_ip, seed_port } => {
                 o.label(format!("filters-len={}", ops.len().min(4)));
+                {
+                    let mut kinds: [std::collections::BTreeSet<u8>; 3] = Default::default();
+                    for (g, f) in ops {
+                        kinds[*g as usize].insert(f.kind);
+                    }
+                    let m = kinds.iter().map(|k| k.len()).max().unwrap_or(0);
+                    o.label(match m { 0 ..= 3 => "largest-group<=3", 4 ..= 9 => "largest-group=4-9", _ => "largest-group>=10" });
+                }
                 o.nontrivial = ops.iter().any(|(g, _)| *g != 0);
                 if ops.iter().any(|(g, _)| *g == 1) { o.label("has-nand"); }
                 if ops.iter().any(|(g, _)| *g == 2) { o.label("has-nor"); }
